@@ -295,14 +295,33 @@ def _run_seed(pid, root, sdir):
         shutil.rmtree(d, ignore_errors=True)
 
 
+def _run_global(pid, root, mode):
+    """whole-tree behaviour-preserving rewrite (gscan/battery.py): every file re-printed from its AST, every local variable
+    of every function renamed, every line shifted - the check must stay silent"""
+    from . import battery
+    d = tempfile.mkdtemp(prefix='gscan_selftest_')
+    try:
+        battery.make(mode, d, root)
+        env = dict(os.environ, GSCAN_REPO=d, GSCAN_OUT=d, GSCAN_NO_SELFTEST='1', PYTHONDONTWRITEBYTECODE='1')
+        r = subprocess.run([sys.executable, '-m', 'gscan.cli', pid, '--tier', 'quick'], cwd=HERE, env=env, capture_output=True, text=True)
+        import re
+        rules = sorted(set(re.findall(r'\[(R[\w.\-]+)\]', r.stdout)))
+        return {'kind': R, 'note': f'whole tree: {mode}', 'exit': r.returncode, 'rules_fired': rules,
+                'result': 'as expected' if r.returncode == 0 else 'FALSE ALARM'}
+    finally:
+        shutil.rmtree(d, ignore_errors=True)
+
+
 def run(pid, root, seed=0):
     table = VARIANTS.get(pid, {M: [], R: []})
     jobs = [(M, i, v) for i, v in enumerate(table.get(M, []))] + [(R, i, v) for i, v in enumerate(table.get(R, []))]
     import glob
     seeds = sorted(glob.glob(os.path.join(HERE, 'seeded', f'{pid}-*')))
     seeds = [s_ for s_ in seeds if os.path.exists(os.path.join(s_, 'patch.diff'))]
-    with ThreadPoolExecutor(max_workers=min(16, max(1, len(jobs) + len(seeds)))) as ex:
-        fut = [ex.submit(_run_variant, pid, root, *j) for j in jobs] + [ex.submit(_run_seed, pid, root, s_) for s_ in seeds]
+    with ThreadPoolExecutor(max_workers=min(16, max(1, len(jobs) + len(seeds) + 3))) as ex:
+        from .battery import MODES
+        fut = [ex.submit(_run_variant, pid, root, *j) for j in jobs] + [ex.submit(_run_seed, pid, root, s_) for s_ in seeds] + \
+            [ex.submit(_run_global, pid, root, m_) for m_ in MODES]
         res = [f_.result() for f_ in fut]
     sd = [r for r in res if r['kind'] == 'seed']
     mut = [r for r in res if r['kind'] == M]
